@@ -3,5 +3,6 @@ CONSTANTS
   NMods = 3
   Choices = {1, 2, 3, 4, 5, 6, 7, 8, 9}
   Splits = {0, 1, 2}
+  Modes = {"plain", "share", "twice"}
 INVARIANT Emit1
 CHECK_DEADLOCK FALSE
